@@ -471,6 +471,30 @@ M("C04", "check-left-short", MP, "        for i in range(len(self) - 1):\n      
   ["check-mirror", "check_left_canonical"], "check_left_canonical skips the last-but-one site")
 M("C04", "check-right-wrong-orth", MP, "            if not self[i].check_rortho(rtol, atol):", "            if not self[i].check_lortho(rtol, atol):",
   ["check-mirror", "check_right_canonical"], "check_right_canonical tests left-orthogonality")
+# ---- mutants of the abstract runs of _update_mps / select_basis / single_sweep (found by hand while writing them)
+M("C05", "update-mps-trunc-site", MP, "                    SUset, cidx[0], self.to_right", "                    SUset, cidx[-1], self.to_right", ["bond-index", "_update_mps[2-site"], "two-site update to the right limits the wrong bond")
+M("C06", "update-mps-label-bond", MP, "                    self.qn[cidx[0] + 1] = msqn", "                    self.qn[cidx[0]] = msqn", ["label-co-update", "_update_mps[1-site"], "kept labels stored on the bond behind the site")
+M("C06", "update-mps-labels-of-other-factor", MP, "                    Vset, SVset, qnrnew, Uset, m_trunc, percent=percent", "                    Vset, SVset, qnlnew, Uset, m_trunc, percent=percent",
+  ["label-co-update", "_update_mps["], "left sweep selects the right factor's vectors with the left factor's labels")
+M("C06", "update-mps-centre", MP, "                self.qnidx = cidx[1]\n            else:\n                self[cidx[1]] = ms", "                self.qnidx = cidx[0]\n            else:\n                self[cidx[1]] = ms",
+  ["label-co-update", "_update_mps[2-site"], "label centre left behind after a two-site update to the right")
+M("C17", "ofs-sign-in-place", MP, "                    cstruct2 = cstruct2.copy()\n", "", ["state-swap", "Jordan-Wigner"], "the fermionic sign is written through the transposed view into the caller's two-site tensor")
+M("C17", "ofs-mixed-sets", MP, "Uset2, SUset2, qnlnew2, Vset2, SVset2, qnrnew2\n                    qnbigl", "Uset2, SUset2, qnlnew1, Vset2, SVset2, qnrnew1\n                    qnbigl",
+  ["state-swap"], "accepted swap keeps the labels of the unswapped decomposition")
+M("C17", "ofs-basis-in-place", MP, "new_basis = self.model.basis.copy()", "new_basis = self.model.basis", ["state-swap", "in place"], "accepted swap reorders the old model's basis list in place")
+M("C17", "ofs-ancilla-transposition", MP, "cstruct2 = asnumpy(cstruct).transpose(0, 3, 4, 1, 2, 5)", "cstruct2 = asnumpy(cstruct).transpose(0, 4, 3, 1, 2, 5)", ["state-swap", "density operator"],
+  "density-operator swap exchanges physical and ancilla axis of the second site")
+M("C05", "select-ascending", LIB, "sortbasdic = sorted(basdic.items(), key=lambda x: x[1][1], reverse=True)", "sortbasdic = sorted(basdic.items(), key=lambda x: x[1][1])", ["select-sorts"], "select_basis keeps the smallest values")
+M("C05", "select-comp-value-index", LIB, "compset[:, sidx[idim]].copy() * sset[sidx[idim]]\n        mpsqn.append", "compset[:, sidx[idim]].copy() * sset[idim]\n        mpsqn.append", ["co-truncate", "select_basis"], "complement column scaled by the value of another column")
+M("C05", "select-label-index", LIB, "mpsqn.append(qnlist[sidx[idim]])", "mpsqn.append(qnlist[idim])", ["co-truncate", "select_basis"], "labels of the kept columns taken by position, not by selected index")
+M("C05", "select-block-not-removed", LIB, "        sidx = [i[0] for i in sort_block_basdic[0:nget]]\n        for idx in sidx:\n            del basdic[idx]\n", "        sidx = [i[0] for i in sort_block_basdic[0:nget]]\n", ["select_basis[percent 0.7]"], "columns taken by the per-sector quota stay candidates for the global selection")
+M("C17", "sweep-no-operator-swap", GS, "            mpo.try_swap_site(mps.model, mps.compress_config.ofs_swap_jw)", "            pass", ["ofs-pair", "single_sweep"], "ground-state sweep swaps the state but not the operator")
+M("C17", "sweep-swap-old-model", GS, "        averaged_ms = mps._update_mps(cstruct, cidx, qnbigl, qnbigr, percent)\n        if mps.compress_config.ofs is not None:\n            mpo.try_swap_site(mps.model, mps.compress_config.ofs_swap_jw)",
+  "        model_before = mps.model\n        averaged_ms = mps._update_mps(cstruct, cidx, qnbigl, qnbigr, percent)\n        if mps.compress_config.ofs is not None:\n            mpo.try_swap_site(model_before, mps.compress_config.ofs_swap_jw)",
+  ["ofs-pair", "single_sweep"], "operator swapped towards the model the state had before its update")
+M("C08", "sweep-env-off-by-one", GS, "                lidx = imps - 2\n", "                lidx = imps - 1\n", ["sweep-driver"], "two-site sweep to the left asks for the left environment of the wrong site")
+M("C06", "sweep-stale-copy", GS, "                res_mps = mps.copy()\n                res_mps._update_mps(cstruct, cidx, qnbigl, qnbigr, percent)", "                res_mps = mps.copy()\n                res_mps._update_mps(cstruct, cidx, qnbigr, qnbigl, percent)",
+  ["fresh-labels", "single_sweep"], "stored optimum updated with the block labels of the two sides exchanged")
 M("C06", "canonicalise-switch-always", "renormalizer/mps/mp.py", "        if (not self.to_right and idx == 1) or (self.to_right and idx == self.site_num - 2):\n            self._switch_direction()", "        self._switch_direction()", ["sweep-centre"],
   "direction switched after partial sweeps too")
 M("C02", "graph-cover-le", "renormalizer/mps/symbolic_mpo.py", "    if non_red.shape[0] < non_red.shape[1]:\n        for i in range(non_red.shape[0]):", "    if non_red.shape[0] <= non_red.shape[1]:\n        for i in range(non_red.shape[0]):", ["terminal-cover"],
